@@ -68,6 +68,12 @@ CHECKS["C08"] = dict(
   text="For 288 (thorough 1551) capture file sets of <=3 files obtained by cutting the C05 conversation sets, every ordered partition into import batches, every arrival order (also out of chronological order), with and without a builder restart between batches (thorough: with and without the snapshot file for captures large enough to create snapshots) is imported through the real builder, feeding FromPcap the accumulated readers like the service does. The canonical visible set (streams keyed by endpoints and first packet, ids ignored) must equal that of the one-shot chronological import; along every history an id keeps denoting the same conversation and no conversation has two visible ids.",
   note="Same trusted base as C05. Snapshot histories cost 1.4-2 s per import and are limited to 4 sets.")
 
+CHECKS["C04"] = dict(
+  category="model_checking", engine="E4-enum", design_ref="3/C04",
+  technique="exhaustive enumeration of regex ASTs and filter combinations against every payload layout of an alphabet through the real search, naive regexp scan as reference",
+  text="One index holds every payload layout (every sequence of <=3 chunks, each a direction and one of 6 (thorough 9) words; a third of the streams with a cached output of converter 1, a sixth with one of converter 2). Every regex AST up to size 3 (thorough 4) over the filter grammar as cdata / negated sdata / data.none / cdata.conv1 / negated sdata.conv2, every pair of a 99-regex set chained with THEN in all direction combinations, combined with AND sharing an expression, negated (raw representation), every triple of an 8-regex set in two direction patterns, and captures reused as @v@ variables in 6 positions are searched with index.SearchStreams; the selected set must equal, stream by stream, what a naive leftmost-first scan of the untrimmed bytes selects (a match hides for the other direction everything up to the chunk holding its last byte; positive filters need one representation, negated ones none).",
+  note="Negated sequences over several representations are the recorded finding KF-C02-3 and are enumerated on the raw representation only. Payloads crossing the 4096-byte buffer and 64 KiB packets are covered by C01/C07, not here. rsc.io/binaryregexp is trusted.")
+
 NOT_YET = {}
 
 def main():
